@@ -1106,6 +1106,10 @@ func corsPaths(p *Program, fn *ssa.Function, preds []*ssa.Function) ([]corsPathI
 			if n := calleeName(cc); n == "(net/http.Header).Get" || strings.HasPrefix(n, "strings.") {
 				continue
 			}
+			// a statistics counter: an atomic update of a package variable that no function on the request path reads
+			if isStatisticsCounter(p, cc) {
+				continue
+			}
 			if cal := cc.StaticCallee(); cal != nil {
 				isPred := false
 				for _, pr := range preds {
@@ -1455,6 +1459,34 @@ func ruleC09b(c *Ctx) {
 					ba, fa, oka := fieldLoad(a)
 					bb, fb, okb := fieldLoad(b)
 					if oka && okb && fa == fb && strip(ba) == strip(bb) {
+						same = true
+					}
+				}
+				// the joined list behind a getter of the configuration: c.AllowedMethodsValue() = Join(c.AllowedMethods)
+				if call, ok := strip(val).(*ssa.Call); ok && call.Call.StaticCallee() != nil && p.inModule(call.Call.StaticCallee()) && len(call.Call.Args) >= 1 {
+					h := call.Call.StaticCallee()
+					_, fb, okb := fieldLoad(strip(methodList))
+					okGetter := okb && h.Blocks != nil && len(h.Params) >= 1
+					nret := 0
+					for _, r := range returnsOf(h) {
+						nret++
+						jc, ok := strip(r.Results[0]).(*ssa.Call)
+						if !ok || calleeName(&jc.Call) != "strings.Join" {
+							okGetter = false
+							continue
+						}
+						_, fa, oka := fieldLoad(strip(jc.Call.Args[0]))
+						if !oka || fa != fb {
+							okGetter = false
+						}
+					}
+					// called on the same configuration object (the pointer, or the value it points to)
+					recvArg := strip(call.Call.Args[0])
+					if u, ok := recvArg.(*ssa.UnOp); ok && u.Op == token.MUL {
+						recvArg = strip(u.X)
+					}
+					bb, _, _ := fieldLoad(strip(methodList))
+					if okGetter && nret > 0 && bb != nil && recvArg == strip(bb) {
 						same = true
 					}
 				}
@@ -2033,4 +2065,38 @@ func emptyStringFact(fs map[condFact]bool, v ssa.Value) bool {
 		}
 	}
 	return false
+}
+
+// isStatisticsCounter: cc is sync/atomic.Add*/Store* on a package-level variable of the module that nothing on the
+// request path loads (atomically or plainly): the update cannot influence any response.
+func isStatisticsCounter(p *Program, cc *ssa.CallCommon) bool {
+	n := calleeName(cc)
+	if !strings.HasPrefix(n, "sync/atomic.Add") && !strings.HasPrefix(n, "sync/atomic.Store") {
+		return false
+	}
+	if len(cc.Args) == 0 {
+		return false
+	}
+	g, ok := strip(cc.Args[0]).(*ssa.Global)
+	if !ok || (g.Pkg != p.Restful && g.Pkg != p.Log) {
+		return false
+	}
+	for _, fn := range p.requestPathFuncs() {
+		read := false
+		eachInstr(fn, func(i ssa.Instruction) {
+			if u, ok := i.(*ssa.UnOp); ok && u.Op == token.MUL && u.X == ssa.Value(g) {
+				read = true
+			}
+			if c2 := callCommon(i); c2 != nil && strings.HasPrefix(calleeName(c2), "sync/atomic.Load") && len(c2.Args) > 0 && strip(c2.Args[0]) == ssa.Value(g) {
+				read = true
+			}
+			if c2 := callCommon(i); c2 != nil && (strings.HasPrefix(calleeName(c2), "sync/atomic.CompareAndSwap") || strings.HasPrefix(calleeName(c2), "sync/atomic.Swap")) && len(c2.Args) > 0 && strip(c2.Args[0]) == ssa.Value(g) {
+				read = true
+			}
+		})
+		if read {
+			return false
+		}
+	}
+	return true
 }
